@@ -1289,3 +1289,53 @@ package gohlslib
 //@   atcall playlist.Multivariant.Marshal forall(i, (0 <= i && i < len(pl.Renditions)) ==> (pl.Renditions[i] != nil && pl.Renditions[i].Type == "AUDIO" && pl.Renditions[i].GroupID == "audio"))
 //@   reachable calls("playlist.Multivariant.Marshal") == 1
 //@ end
+
+// ---------------------------------------------------------------------------------------
+// C03 / C04 / C05 / C06: the media playlist value handed to the encoder (fMP4 and Low-Latency).
+// Every listed entry is a copy of the window's state: EXTINF = endDTS - startDTS, URI = the registered
+// path (+ the request's query without _HLS_ directives), gap entries for gaps, PROGRAM-DATE-TIME and parts
+// only under the last two segments, the open segment's parts and the preload hint for the next part in
+// Low-Latency mode; a delta update is the same list without its first `skipped` entries and without the map.
+
+//@ pred withQ(u string, q string) string := ite(q != "", u + ("?" + q), u)
+//@ pred listsPart(pp *playlist.MediaPart, p *muxerPart, q string) := pp != nil && pp.Duration == p.endDTS - p.startDTS && pp.URI == withQ(p.path, q) && pp.Independent == p.isIndependent
+//@ pred listsSeg(s *muxerStream, ps *playlist.MediaSegment, j int, q string) := ps != nil
+//@   && (isF(s.segments[j]) ==> (!ps.Gap && ps.Duration == asF(s.segments[j]).endDTS - asF(s.segments[j]).startDTS && ps.URI == withQ(asF(s.segments[j]).path, q)
+//@        && ((len(s.segments) - j <= 2) ==> (ps.DateTime != nil && *ps.DateTime == asF(s.segments[j]).startNTP)) && ((len(s.segments) - j > 2) ==> ps.DateTime == nil)
+//@        && ((s.variant == MuxerVariantLowLatency && len(s.segments) - j <= 2) ==> (len(ps.Parts) == len(asF(s.segments[j]).parts)
+//@             && forall(p, (0 <= p && p < len(ps.Parts)) ==> listsPart(ps.Parts[p], asF(s.segments[j]).parts[p], q))))
+//@        && (!(s.variant == MuxerVariantLowLatency && len(s.segments) - j <= 2) ==> len(ps.Parts) == 0)))
+//@   && (isG(s.segments[j]) ==> (ps.Gap && ps.Duration == s.segments[j].(*muxerGap).duration && ps.URI == "gap.mp4" && len(ps.Parts) == 0))
+
+//@ func muxerStream.generateMediaPlaylistFMP4
+//@   props C03 C04 C05 C06
+//@   nosafety
+//@   noframe
+//@   nocallpre
+//@   requires held(s.mutex) && s.partTargetDuration >= 0 && s.targetDuration >= 0
+//@   requires shape(s) && partsOK(s) && (s.variant == MuxerVariantLowLatency ==> (wfLL(s) && forall(p, (0 <= p && p < len(asF(s.nextSegment).parts)) ==> asF(s.nextSegment).parts[p] != nil)))
+//@   requires forall(i, (0 <= i && i < len(s.segments)) ==> (isF(s.segments[i]) || isG(s.segments[i])))
+//@   loop 1 invariant ri < len(s.segments) && 0 <= shown && shown <= ri + 1
+//@   loop 2 invariant ri < len(s.segments) && 0 <= skipped && skipped <= len(s.segments) && len(pl.Segments) == max(0, ri + 1 - skipped)
+//@   loop 2 invariant forall(k, (0 <= k && k < len(pl.Segments)) ==> listsSeg(s, pl.Segments[k], skipped + k, rawQuery))
+//@   loop 3 invariant ri < len(seg.parts) && len(plse.Parts) == ri + 1 && forall(p, (0 <= p && p <= ri) ==> listsPart(plse.Parts[p], seg.parts[p], rawQuery))
+//@   loop 3 invariant fresh(plse) && !plse.Gap
+//@   loop 3 invariant plse.Duration == seg.endDTS - seg.startDTS
+//@   loop 3 invariant plse.URI == withQ(seg.path, rawQuery)
+//@   loop 3 invariant plse.DateTime != nil && *plse.DateTime == seg.startNTP
+//@   loop 3 invariant seg == asF(s.segments[i]) && isF(s.segments[i]) && 0 <= i && i < len(s.segments) && len(s.segments) - i <= 2 && s.variant == MuxerVariantLowLatency
+//@   loop 3 invariant len(pl.Segments) == max(0, i - skipped) && forall(k, (0 <= k && k < len(pl.Segments)) ==> listsSeg(s, pl.Segments[k], skipped + k, rawQuery))
+//@   loop 4 invariant ri < len(asF(s.nextSegment).parts) && len(pl.Parts) == ri + 1 && forall(p, (0 <= p && p <= ri) ==> listsPart(pl.Parts[p], asF(s.nextSegment).parts[p], rawQuery))
+//@   loop 4 invariant len(pl.Segments) == len(s.segments) - skipped && forall(k, (0 <= k && k < len(pl.Segments)) ==> listsSeg(s, pl.Segments[k], skipped + k, rawQuery))
+//@   atcall playlist.Media.Marshal pl.Version == 10 && pl.TargetDuration == s.targetDuration && pl.MediaSequence == s.segmentDeleteCount
+//@   atcall playlist.Media.Marshal 0 <= skipped && skipped <= len(s.segments) && len(pl.Segments) == len(s.segments) - skipped
+//@   atcall playlist.Media.Marshal forall(k, (0 <= k && k < len(pl.Segments)) ==> listsSeg(s, pl.Segments[k], skipped + k, rawQuery))
+//@   atcall playlist.Media.Marshal !isDeltaUpdate ==> (skipped == 0 && pl.Skip == nil && pl.Map != nil && pl.Map.URI == withQ(initFilePath(s.prefix, s.id), rawQuery))
+//@   atcall playlist.Media.Marshal isDeltaUpdate ==> (pl.Map == nil && pl.Skip != nil && pl.Skip.SkippedSegments == skipped)
+//@   atcall playlist.Media.Marshal s.variant == MuxerVariantLowLatency ==> (pl.ServerControl != nil && pl.ServerControl.CanBlockReload && pl.PartInf != nil && pl.PartInf.PartTarget == s.partTargetDuration
+//@        && *pl.ServerControl.PartHoldBack == div(s.partTargetDuration * 25, 10) && *pl.ServerControl.CanSkipUntil == s.targetDuration * 6000000000)
+//@   atcall playlist.Media.Marshal s.variant == MuxerVariantLowLatency ==> (len(pl.Parts) == len(asF(s.nextSegment).parts) && forall(p, (0 <= p && p < len(pl.Parts)) ==> listsPart(pl.Parts[p], asF(s.nextSegment).parts[p], rawQuery))
+//@        && pl.PreloadHint != nil && pl.PreloadHint.URI == withQ(partPath(s.prefix, s.id, s.nextPartID), rawQuery))
+//@   atcall playlist.Media.Marshal s.variant != MuxerVariantLowLatency ==> (pl.ServerControl == nil && pl.PartInf == nil && len(pl.Parts) == 0 && pl.PreloadHint == nil)
+//@   reachable calls("playlist.Media.Marshal") == 1
+//@ end
